@@ -23,6 +23,7 @@ import peg_family  # noqa: E402
 
 LEVEL = "model_checking"
 NTU = 16
+_OBS = {}   # observed-only disagreements (outside the statement of C02): what -> [count, example]
 
 EXTRA = ["7", "-7", "-0", "70", "-70", "0.7", "-0.7", "7.", ".7", "7.7a", "-", "--7", "- 7", " -7", "7 7", "a7", "7a",
          "65535", "65536", "00065535", "99999", "2147483647", "2147483648", "-2147483647", "-2147483648",
@@ -47,10 +48,18 @@ def build(ctx, files):
     return vlib.build_harness("c02_harness_%s_%d" % (ctx.tier, ctx.seed), ["c02_main.cpp"] + files, libs=("core",), opt="-O0")
 
 
-def write_inputs(path, strings):
+JSON_EXTRA = ['[null]', '[true,false]', '[ 1 , -2 ]', '{"a":1}', '{"a":1,"a":2}', '{"a":{"b":[1,{"c":null}]}}', '[[[[]]]]', '[1,]', '[,1]',
+              '{"a"}', '{"a":}', '[" a"]', '["a" ]', ' [1]', '[1] ', '[tru]', '[nul]', '[-]', '[2147483648]', '[-2147483647]', '[00]',
+              '{"":[]}', '{"a":1,"b":2}', '[1 2]', '[[1],[2,[3]]]', '{"a":[{"b":{}}]}', '[""," "]', '[\n1,\n x]', '{"a":1,\n"b" 2}',
+              '[1,\n\n{"k":tru}]']
+
+
+def write_inputs(path, std, jsn):
     with open(path, "w") as f:
-        for s in strings:
-            f.write(json.dumps([ord(c) for c in s]) + "\n")
+        for s in std:
+            f.write(json.dumps({"set": "std", "s": [ord(c) for c in s]}) + "\n")
+        for s in jsn:
+            f.write(json.dumps({"set": "json", "s": [ord(c) for c in s]}) + "\n")
 
 
 def judge_file(ctx, path, gpath, what, rc, out, doc):
@@ -67,7 +76,14 @@ def judge_file(ctx, path, gpath, what, rc, out, doc):
         m = re.search(r'"s":(\[[^\]]*\])', tail or "")
         if m and g != "?":
             payload.update({"g": int(g), "sk": sk, "s": json.loads(m.group(1))})
-        ctx.reject("C02:parse:%s" % kind, "%s during a parse call (%s), grammar %s skipper %s: %s; partial line: %s" % (
+        m2 = re.search(r'"e":"(\w+)"', tail or "")
+        if m2 and m2.group(1) != "string":
+            # a crash inside an observed-only entry point is an observation, not a verdict
+            o = _OBS.setdefault("%s:%s" % (m2.group(1), kind), [0, None])
+            o[0] += 1
+            o[1] = o[1] or {"partial_line": (tail or "")[:300]}
+        else:
+          ctx.reject("C02:parse:%s" % kind, "%s during a parse call (%s), grammar %s skipper %s: %s; partial line: %s" % (
             kind, what, g, sk, san.group(1) if san else out[-300:], (tail or "")[:300]), payload)
         with open(path, "w") as fh:
             fh.write("\n".join(lines) + ("\n" if lines else ""))
@@ -95,7 +111,17 @@ def judge_file(ctx, path, gpath, what, rc, out, doc):
             if "HARNESS-PRECONDITION" in b["why"]:
                 raise vlib.Infra("harness record refers to an unknown grammar/skipper: line %d of %s" % (b["l"] + first, path))
             rec = json.loads(lines[b["l"] + first - 1])
-            sig = "C02:parse:%s" % "+".join(sorted(b["why"]))
+            inside = sorted(w for w in b["why"] if not w.startswith("obs:"))
+            for w in b["why"]:
+                if w.startswith("obs:"):
+                    # outside the statement of C02 (PegJudge.tla RecordInScope): observed, counted, never a VIOLATION
+                    o = _OBS.setdefault(w[4:], [0, None])
+                    o[0] += 1
+                    if o[1] is None:
+                        o[1] = {"grammar": show(gram[rec["g"]]["g"]), "record": json.dumps(rec, separators=(",", ":"))[:500]}
+            if not inside:
+                continue
+            sig = "C02:parse:%s" % "+".join(inside)
             ctx.reject(sig, "%s: the PEG semantics cannot explain (%s) the result of grammar %d = %s under skipper %s on input %r: %s" % (
                 what, ",".join(b["why"]), rec["g"], show(gram[rec["g"]]["g"]), rec["sk"], "".join(chr(c) for c in rec["s"]),
                 json.dumps(rec, separators=(",", ":"))[:300]),
@@ -150,22 +176,32 @@ def run(ctx):
     # 1. the specification itself, over this very family
     env = {"GRAMMARS": gpath}
     vlib.tlc_mc(ctx, "MC_Peg", "MC_Peg_big.cfg" if thorough else "MC_Peg.cfg", env=env, timeout=3000)
-    for b in ("not", "alt", "rep", "opt", "fatal"):
+    for b in ("not", "alt", "rep", "opt", "fatal", "loc"):
         r = vlib.tlc("MC_Peg", "MC_Peg_bug_%s.cfg" % b, workers=4, env=env, expect="Laws")
         if "Laws" not in r.invariant_violated:
             raise vlib.Infra("vacuity guard: MC_Peg with Bug=%s did not violate Laws" % b)
         ctx.extra.setdefault("vacuity_guards", []).append({"cfg": "MC_Peg_bug_%s.cfg" % b, "violates": "Laws", "states": r.distinct})
+    ipath = os.path.join(ctx.workdir, "extra_inputs.ndjson")
+    write_inputs(ipath, EXTRA, JSON_EXTRA)
+    jpath = os.path.join(ctx.workdir, "json_extra.ndjson")
+    write_inputs(jpath, [], JSON_EXTRA)
+    # the JSON grammar (recursive grammar 9004) as Peg.tla interprets it = the independent reference JsonRef.tla
+    jenv = {"GRAMMARS": gpath, "JSONEXTRA": jpath}
+    vlib.tlc_mc(ctx, "MC_PegJson", "MC_PegJson_big.cfg" if thorough else "MC_PegJson.cfg", env=jenv, timeout=3000)
+    r = vlib.tlc("MC_PegJson", "MC_PegJson_bug.cfg", workers=4, env=jenv)
+    if "JsonAgree" not in r.invariant_violated:
+        raise vlib.Infra("vacuity guard: MC_PegJson with Bug=opt did not violate JsonAgree")
+    ctx.extra.setdefault("vacuity_guards", []).append({"cfg": "MC_PegJson_bug.cfg", "violates": "JsonAgree", "states": r.distinct})
     # 2. the real code
     binary = build(ctx, files)
     maxlen = 5 if thorough else 4
-    ipath = os.path.join(ctx.workdir, "extra_inputs.ndjson")
-    write_inputs(ipath, EXTRA)
     # the harness is single-threaded: run it as independent processes over disjoint sets of TUs
     nsh = 8 if thorough else 4
 
     def shard(i):
         tp = os.path.join(ctx.workdir, "parses_%d.ndjson" % i)
-        rc, out = vlib.run_harness(binary, [tp, maxlen, 1 if thorough else 0, ipath, i, nsh], timeout=3000)
+        # quick: the stream entry points for every second generated grammar (all of them in thorough)
+        rc, out = vlib.run_harness(binary, [tp, maxlen, 1 if thorough else 2, ipath, i, nsh], timeout=3000)
         if rc in (3, 4):
             raise vlib.Infra("harness usage/internal error: %s" % out[-500:])
         return tp, rc, out
@@ -184,13 +220,17 @@ def run(ctx):
     step = max(1, len(lines) // 200000)
     for l in lines[::step]:
         r = json.loads(l)
-        ctx.count_class((r["g"], r["sk"], r["ch"], "ok" if r["ok"] else ("fatal" if r["fatal"] else "fail"), len(r["probes"]) > 0))
+        ctx.count_class((r["g"], r["sk"], r["ch"], r["e"], "ok" if r["ok"] else ("fatal" if r["fatal"] else "fail"),
+                         len(r["probes"]) > 0, min(len(r["locs"]), 2)))
     for l in lines[len(lines) // 3: len(lines) // 3 + 2]:
         ctx.sample(json.loads(l))
     nin = sum(4 ** k for k in range(maxlen + 1)) + len(EXTRA)
     ctx.extra.update({"grammars": ngram + 2, "grammar_skipper_pairs": sum(len(x["sks"]) for x in doc["grammars"]) + 2,
                       "inputs_per_pair": nin, "char_types": 2 if thorough else 1,
                       "combinator_census": census(doc)})
+    ctx.extra["observations"] = [{"what": k, "count": v[0], "example": v[1]} for k, v in sorted(_OBS.items())]
+    for k, v in sorted(_OBS.items()):
+        vlib.log("OBSERVATION (outside the statement of C02, not a verdict): %s x%d e.g. %s" % (k, v[0], v[1]))
     ctx.exhaustive = False
     ctx.rule = ("a record = one call of parse_string/phrase_parse_string/grammar_parse_string: %d generated grammars (depth <= 3 "
                 "over the leaf set, hand-picked + every unary combinator over every leaf + seeded random, type-directed) + 2 "
@@ -227,10 +267,13 @@ def replay(ctx, payload):
         raise vlib.Infra("replay payload names no grammar/input")
     ipath = os.path.join(ctx.workdir, "replay_input.ndjson")
     with open(ipath, "w") as f:
-        f.write(json.dumps(p["s"]) + "\n")
+        f.write(json.dumps({"set": "both", "s": p["s"]}) + "\n")
     tpath = os.path.join(ctx.workdir, "replay_out.ndjson")
     rc, out = vlib.run_harness(binary, [tpath, -1, 1 if ctx.tier == "thorough" else 0, ipath, 0, 1, p["g"], p["sk"]], timeout=600)
     lines = judge_file(ctx, tpath, gpath, "replay", rc, out, doc)
+    ctx.extra["observations"] = [{"what": k, "count": v[0], "example": v[1]} for k, v in sorted(_OBS.items())]
+    for k, v in sorted(_OBS.items()):
+        print("OBSERVATION (outside the statement of C02, not a verdict): %s x%d e.g. %s" % (k, v[0], v[1]))
     ctx.traces_validated += len(lines)
     ctx.evaluations += len(lines)
     ctx.count_class("replay")
